@@ -1704,6 +1704,19 @@ func (g *gx) stmts(list []ast.Stmt, k func() string) string {
 		g.fail(st, "unsupported branch statement")
 	case *ast.DeferStmt:
 		return g.deferStmt(st, rest)
+	case *ast.SwitchStmt:
+		// switch tag { case a, b: ... } as an if / else-if chain (the tag is an expression without effects; a break
+		// anywhere inside would leave the switch in Go but the loop in the chain: refused)
+		if st.Init != nil {
+			g.fail(st, "switch with init")
+		}
+		ast.Inspect(st.Body, func(n ast.Node) bool {
+			if b, ok := n.(*ast.BranchStmt); ok && b.Tok != token.CONTINUE {
+				g.fail(b, "break / goto / fallthrough inside a switch")
+			}
+			return true
+		})
+		return g.stmts(append([]ast.Stmt{g.t.switchToIf(st)}, list[1:]...), k)
 	}
 	g.fail(list[0], "unsupported statement %T", list[0])
 	return ""
@@ -2703,10 +2716,17 @@ func (s *gsec) record(name string) string {
 func (p *pkg) emitDemuxGen() string {
 	var b strings.Builder
 	b.WriteString(demuxGenHeader)
-	for _, def := range gsections {
+	p.emitGSections(&b, gsections)
+	return b.String()
+}
+
+// emitGSections translates the given sections (also used by restgen.go for PSIData.toData in Gen/RestData.v).
+func (p *pkg) emitGSections(bp *strings.Builder, secs []gsection) {
+	b := bp
+	for _, def := range secs {
 		s := &gsec{p: p, def: def, names: map[string]string{}, funcs: map[string]*gfuncInfo{}, failed: map[string]bool{},
 			records: map[string]bool{}, nilable: map[string]bool{}}
-		fmt.Fprintf(&b, "Section %s.\nVariable W : Type.\n\n", def.name)
+		fmt.Fprintf(b, "Section %s.\nVariable W : Type.\n\n", def.name)
 		s.names["W"] = "Type"
 		for _, key := range def.entries {
 			if d, ok := p.funcs[key]; ok && d.Body != nil {
@@ -2727,7 +2747,7 @@ func (p *pkg) emitDemuxGen() string {
 						b.WriteString(dcl)
 					}
 					s.pending = s.pending[:mark]
-					fmt.Fprintf(&b, "(* NOT TRANSLATED (%s left the translator's grammar): %s *)\n\n", what, strings.ReplaceAll(ge.msg, "*)", "* )"))
+					fmt.Fprintf(b, "(* NOT TRANSLATED (%s left the translator's grammar): %s *)\n\n", what, strings.ReplaceAll(ge.msg, "*)", "* )"))
 				}
 			}()
 			text := f()
@@ -2745,7 +2765,6 @@ func (p *pkg) emitDemuxGen() string {
 			key := key
 			isolate(key, func() string { return s.function(key) })
 		}
-		fmt.Fprintf(&b, "End %s.\n\n", def.name)
+		fmt.Fprintf(b, "End %s.\n\n", def.name)
 	}
-	return b.String()
 }
